@@ -318,6 +318,7 @@ Proof.
   subst d.
   (* fast side *)
   cbn [istep]. fold n. rewrite Harr. replace (negb (n =? 0)) with true by (symmetry; apply negb_true_iff, N.eqb_neq; exact Hn0).
+  replace (n <=? LOOP_LIMIT) with true by (symmetry; apply N.leb_le; exact Hlim).
   cbn [andb]. rewrite Hsh.
   (* generic side *)
   cbn [op_prog]. unfold a_shift, get_len. rewrite !run_bind, run_get_meta. cbn [run_i]. fold n.
